@@ -9,6 +9,7 @@ import (
 	"go/types"
 	"sort"
 	"strings"
+	"sync"
 
 	"golang.org/x/tools/go/ast/astutil"
 	"golang.org/x/tools/go/ssa"
@@ -46,69 +47,74 @@ type debugRef struct {
 }
 
 type loopInfo struct {
-	header  *ssa.BasicBlock
-	ord     int
-	body    map[*ssa.BasicBlock]bool
-	invs    []*Clause
-	decs    []*Clause
-	m0      [][]string // measures at header, per decreases clause
-	hstate  *State
+	header *ssa.BasicBlock
+	ord    int
+	body   map[*ssa.BasicBlock]bool
+	invs   []*Clause
+	decs   []*Clause
+	m0     [][]string // measures at header, per decreases clause
+	hstate *State
 }
 
 type FEnc struct {
-	eng    *Engine
-	fn     *ssa.Function
-	fc     *FuncContract
-	d      *Decls
-	consts []string
-	facts  []string
-	vals   map[ssa.Value]*Val
-	nfresh int
-	allocs []*AllocInfo
-	allocOf map[*ssa.Alloc]int
-	obls   []*Obligation
-	exit   map[*ssa.BasicBlock]*State
-	debug  []debugRef
-	factDone map[string]bool
-	prop   string
-	safety bool
-	checked bool // arithmetic overflow obligations
-	phiSubst map[*ssa.Phi]*Val
-	loops  map[*ssa.BasicBlock]*loopInfo
-	domDepth map[*ssa.BasicBlock]int
-	epochN int
-	epochPreds map[int][]epochEdge
-	heapSorts map[string]string
+	eng          *Engine
+	fn           *ssa.Function
+	fc           *FuncContract
+	d            *Decls
+	consts       []string
+	facts        []string
+	vals         map[ssa.Value]*Val
+	nfresh       int
+	allocs       []*AllocInfo
+	allocOf      map[*ssa.Alloc]int
+	obls         []*Obligation
+	exit         map[*ssa.BasicBlock]*State
+	debug        []debugRef
+	factDone     map[string]bool
+	prop         string
+	safety       bool
+	checked      bool // arithmetic overflow obligations
+	phiSubst     map[*ssa.Phi]*Val
+	loops        map[*ssa.BasicBlock]*loopInfo
+	domDepth     map[*ssa.BasicBlock]int
+	epochN       int
+	epochPreds   map[int][]epochEdge
+	heapSorts    map[string]string
 	heapDeclared map[string]bool
-	notes  []string // abstractions applied (for evidence)
-	unsupported []string
-	entry *State
-	safetyCount map[string]int
-	curBlock *ssa.BasicBlock
-	curIdx int
-	locs []string
-	usedGhost map[string]bool
-	inlined map[string]bool
-	depth int
-	parts map[string]*Obligation
-	partOrder []string
-	atCallHits map[*Clause]int
-	calleesUsed map[string]*FuncContract
-	axiomsUsed []string
-	lemmasUsed []string
-	isLemma bool
-	lemmaIndex int
-	noFacts bool
-	ghostText []string
-	ghostDone bool
-	ghostErr error
-	cur *State
+	notes        []string // abstractions applied (for evidence)
+	unsupported  []string
+	entry        *State
+	safetyCount  map[string]int
+	curBlock     *ssa.BasicBlock
+	curIdx       int
+	locs         []string
+	usedGhost    map[string]bool
+	inlined      map[string]bool
+	depth        int
+	parts        map[string]*Obligation
+	partOrder    []string
+	atCallHits   map[*Clause]int
+	calleesUsed  map[string]*FuncContract
+	axiomsUsed   []string
+	lemmasUsed   []string
+	isLemma      bool
+	lemmaIndex   int
+	noFacts      bool
+	ghostText    []string
+	ghostDone    bool
+	ghostErr     error
+	cur          *State
+	splitParts   bool // debugging: one obligation per program point instead of one per clause
 	pendingLeaks []int
+	factInfo     []factInfo
+	symMu        sync.Mutex
+	prune        bool                // cone-of-influence pruning (off: it dropped needed facts in practice)
+	exposed      map[*ssa.Alloc]bool // locals whose address is used as a value somewhere in the function
 	catParts     map[string][]string // concatenation term -> its flattened parts
 	catCache     map[string]string
 	rangeGhost   map[*ssa.Range]int // map iteration -> ghost cell holding the set of keys visited so far
-	mergeTarget  *State   // state being built at a join (for merge objects)
-	mergeSources []*State // predecessor exit states, parallel to the values being merged
+	mergeTarget  *State             // state being built at a join (for merge objects)
+	mergeSources []*State           // predecessor exit states, parallel to the values being merged
 }
 
 type epochEdge struct {
@@ -315,6 +321,9 @@ func (e *FEnc) newAlloc(ty types.Type, in *ssa.Alloc, name string, st *State) *V
 	e.consts = append(e.consts, fmt.Sprintf("(declare-const %s Ref)", loc))
 	e.locs = append(e.locs, loc)
 	st.cells[id] = e.zero(ty)
+	if in != nil && e.exposed[in] {
+		e.publish(st, map[int]bool{id: true})
+	}
 	return &Val{Ty: types.NewPointer(ty), Sort: "Ref", P: &Ptr{Root: rLocal, Alloc: id, Elem: ty}}
 }
 
@@ -361,6 +370,7 @@ func (e *FEnc) havocHeap(st *State) {
 	e.epochN++
 	st.epoch = e.epochN
 	st.heap = map[string]string{}
+	st.pub = map[int]*Val{}
 }
 
 // leak marks a local object (and everything reachable from its tracked content) as escaped in the current state.
@@ -377,6 +387,9 @@ func (e *FEnc) leak(id int) {
 	st.leaked[id] = true
 	if c, ok := st.cells[id]; ok {
 		e.leakVal(c)
+	}
+	for k := range e.allocs[id].Embedded {
+		e.leak(k)
 	}
 }
 
@@ -395,6 +408,15 @@ func (e *FEnc) reachable(st *State, vs []*Val) map[int]bool {
 				if c, ok := st.cells[id]; ok {
 					visit(c)
 				}
+				var emb []int
+				for k := range e.allocs[id].Embedded {
+					emb = append(emb, k)
+				}
+				for _, k := range emb {
+					if !out[k] {
+						visit(&Val{P: &Ptr{Root: rLocal, Alloc: k}})
+					}
+				}
 			}
 		}
 		for _, f := range v.Fields {
@@ -411,6 +433,62 @@ func (e *FEnc) reachable(st *State, vs []*Val) map[int]bool {
 		visit(v)
 	}
 	return out
+}
+
+// publish copies the tracked content of local objects into the heap at their addresses, so that
+// contract expressions which reach them through pointers stored in the heap (e.g. *objs[i].Key with
+// Key: &key) read the current values.
+func (e *FEnc) publish(st *State, ids map[int]bool) {
+	var list []int
+	for id := range ids {
+		list = append(list, id)
+	}
+	sort.Ints(list)
+	for _, id := range list {
+		a := e.allocs[id]
+		if a.Weak || a.GhostSort != "" || a.Ty == nil {
+			continue
+		}
+		c, ok := st.cells[id]
+		if !ok {
+			continue
+		}
+		if st.pub == nil {
+			st.pub = map[int]*Val{}
+		}
+		if last, ok := st.pub[id]; ok && sameVal(last, c) {
+			continue // the heap copy is current
+		}
+		st.pub[id] = c
+		loc := fmt.Sprintf("loc_%d", id)
+		if sty := structOf(a.Ty); sty != nil {
+			for i := 0; i < sty.NumFields(); i++ {
+				hn, hs := e.d.heapField(a.Ty, i)
+				h := e.heapGet(st, hn, hs)
+				e.heapSet(st, hn, hs, fmt.Sprintf("(store %s %s %s)", h, loc, e.term(e.fieldOf(c, i))))
+			}
+			continue
+		}
+		if _, isArr := a.Ty.Underlying().(*types.Array); isArr {
+			continue // arrays are published when sliced
+		}
+		hn, hs := e.d.heapPtr(a.Ty)
+		h := e.heapGet(st, hn, hs)
+		e.heapSet(st, hn, hs, fmt.Sprintf("(store %s %s %s)", h, loc, e.term(c)))
+	}
+}
+
+// publishExposed keeps the heap copies of all address-exposed locals current (write-through).
+func (e *FEnc) publishExposed(st *State) {
+	pub := map[int]bool{}
+	for id := range st.cells {
+		if a := e.allocs[id]; a.Instr != nil && e.exposed[a.Instr] {
+			pub[id] = true
+		}
+	}
+	if len(pub) > 0 {
+		e.publish(st, pub)
+	}
 }
 
 func (e *FEnc) markAliased(v *Val) {
@@ -618,6 +696,15 @@ func (e *FEnc) store(st *State, p *Ptr, v *Val) {
 		}
 		st.cells[p.Alloc] = e.update(c, p.Path, v)
 		e.markAliased(v)
+		for id := range e.reachable(st, []*Val{v}) {
+			if a.Embedded == nil {
+				a.Embedded = map[int]bool{}
+			}
+			a.Embedded[id] = true
+		}
+		if a.Instr != nil && e.exposed[a.Instr] {
+			e.publish(st, map[int]bool{p.Alloc: true})
+		}
 		if st.leaked[p.Alloc] {
 			e.leakVal(v)
 		}
@@ -702,6 +789,10 @@ func (e *FEnc) fnName() string {
 // (all returns for an ensures clause, all back edges for an invariant, all matching call sites
 // for an at-call clause), so that obligation names do not depend on block numbering.
 func (e *FEnc) obligePart(kind, key string, props []string, pos token.Pos, desc, reach, goal string) {
+	if e.splitParts {
+		e.oblige(kind, key+"@"+e.posOf(pos), props, pos, desc, reach, goal)
+		return
+	}
 	name := fmt.Sprintf("%s#%s#%s", e.fnName(), kind, key)
 	o, ok := e.parts[name]
 	if !ok {
@@ -905,8 +996,9 @@ func (e *FEnc) run() {
 			}
 		}
 	}
+	e.computeExposed()
 	order := e.rpo()
-	st := &State{reach: "true", cells: map[int]*Val{}, heap: map[string]string{}, epoch: 0, leaked: map[int]bool{}}
+	st := &State{reach: "true", cells: map[int]*Val{}, heap: map[string]string{}, epoch: 0, leaked: map[int]bool{}, pub: map[int]*Val{}}
 	// parameters
 	for _, p := range fn.Params {
 		v := e.newVal(p.Type(), "p_"+mangle(p.Name()))
@@ -1198,6 +1290,18 @@ func (e *FEnc) mergeStates(b *ssa.BasicBlock, es []inEdge) (*State, []string) {
 			st.leaked[k] = true
 		}
 	}
+	st.pub = map[int]*Val{}
+	for id, v := range es[0].state.pub {
+		same := true
+		for _, ed := range es[1:] {
+			if w, ok := ed.state.pub[id]; !ok || !sameVal(v, w) {
+				same = false
+			}
+		}
+		if same {
+			st.pub[id] = v
+		}
+	}
 	r := e.fresh(fmt.Sprintf("rch%d", b.Index), "Bool")
 	e.fact(eq(r, or(conds...)))
 	st.reach = r
@@ -1345,6 +1449,7 @@ func (e *FEnc) enterBlock(b *ssa.BasicBlock) *State {
 	if callsOrHeap {
 		e.havocHeap(hs)
 	}
+	e.publishExposed(hs)
 	for _, c := range li.invs {
 		env := e.fnEnvAt(hs, e.entry, b, -1)
 		g, err := e.evalBool(env, c.Expr)
@@ -1613,4 +1718,47 @@ func (e *FEnc) callKeepsHeap(cc *ssa.CallCommon) bool {
 		fc = e.eng.contractOf(fn)
 	}
 	return fc != nil && (fc.Pure || fc.NoHavoc)
+}
+
+// computeExposed: allocations whose address (or an interior address) is used other than for loading
+// from / storing to them — it may then be reachable through pointers held elsewhere.
+func (e *FEnc) computeExposed() {
+	e.exposed = map[*ssa.Alloc]bool{}
+	var root func(v ssa.Value) *ssa.Alloc
+	root = func(v ssa.Value) *ssa.Alloc {
+		switch x := v.(type) {
+		case *ssa.Alloc:
+			return x
+		case *ssa.FieldAddr:
+			return root(x.X)
+		case *ssa.IndexAddr:
+			return root(x.X)
+		}
+		return nil
+	}
+	for _, b := range e.fn.Blocks {
+		for _, in := range b.Instrs {
+			switch x := in.(type) {
+			case *ssa.DebugRef, *ssa.FieldAddr, *ssa.IndexAddr:
+				continue
+			case *ssa.UnOp:
+				if x.Op == token.MUL {
+					continue
+				}
+			case *ssa.Store:
+				if a := root(x.Val); a != nil {
+					e.exposed[a] = true
+				}
+				continue
+			}
+			for _, op := range in.Operands(nil) {
+				if *op == nil {
+					continue
+				}
+				if a := root(*op); a != nil {
+					e.exposed[a] = true
+				}
+			}
+		}
+	}
 }
